@@ -1,5 +1,8 @@
 HOOK_COMMITS = ["1ae4f10", "19e3492"]
 ENGINES = [
+    {"name": "ipamsim", "path": "/verif/harness/ipamsim", "serves_properties": ["C01", "C02", "C03", "C04", "C10"],
+     "kind_free_text": "simulated cluster around the real galaxy-ipam plugin: fake API server trackers, informer model, cooperative "
+                       "scheduler owning the interleaving, fault/crash injection, recording cloud provider; rapid stateful generation"},
     {"name": "codec", "path": "/verif/harness/codec", "serves_properties": ["C20"],
      "kind_free_text": "rapid generators over pure codecs/validators with a set-of-uint32 reference model"},
 ]
@@ -17,3 +20,21 @@ TEXTS = {
                       "gateway inside the subnet; 0.0.0.0/0 excluded as the property states.",
     },
 }
+_HIST_NOTE = ("Trusted: the harness' API-server/informer model (client-go object tracker + pods/binding semantics), the cooperative "
+              "scheduler's blocked-goroutine detection, the reference oracle. Interleavings are explored at lister/IPAM/API-call "
+              "granularity, not instruction granularity; 3-way episodes are sampled.")
+def _h(ref, tech, text):
+    return {"engine": "ipamsim", "design_ref": ref, "technique": tech, "level_text": text, "level_note": _HIST_NOTE}
+TEXTS.update({
+    "C01": _h("DESIGN.md §4 C01", "stateful property-based testing (rapid): generated histories + generated schedules, ownership invariants after every step",
+              "Generated histories over generated topologies with harness-owned schedules; ownership invariants are evaluated after every op "
+              "and every scheduler step. Exploration: the space of histories x interleavings is unbounded; failures shrink to a replayable Case."),
+    "C02": _h("DESIGN.md §4 C02", "stateful property-based testing (rapid): histories biased to reschedule/rolling update, reservation-before-filter relation",
+              "For every filter/bind of every generated history the IPAM state right before the call is compared with the binding that results."),
+    "C03": _h("DESIGN.md §4 C03", "model-based property testing (rapid): reference model of the documented release policy evaluated at every unbind/resync and at quiescence",
+              "Two-directional oracle from doc/float-ip.md: no premature release at evaluation points, no leak at harness-constructed quiescence."),
+    "C04": _h("DESIGN.md §4 C04", "stateful property-based testing (rapid): dangerous event orderings and interleavings, live-pod-keeps-IP invariant after every step",
+              "Histories are built around late/duplicate unbind sources, resync, API release and reload against a live same-named replacement."),
+    "C10": _h("DESIGN.md §4 C10", "stateful property-based testing (rapid): provider call log replayed through a per-IP state machine",
+              "A recording provider with cleanly failing calls; the log of every generated history is replayed through none|on(node)."),
+})
